@@ -12,6 +12,7 @@ _compute_geometry_2d and - for grids with inconsistent face orientation - map_ge
 from __future__ import annotations
 
 import warnings
+from types import SimpleNamespace
 
 import numpy as np
 
@@ -42,6 +43,14 @@ def motions(rng, n):
             M = P @ Mq
         t = [rng.randint(-3, 3) for _ in range(3)]
         out.append(dict(M=[[int(x) for x in row] for row in M], q=int(q), t=t))
+    # one FAR motion: a signed permutation followed by a translation by thousands of grid diameters (integers, so the
+    # moved nodes are exact).  The harness subtracts the translation from the computed centres again (the rounding of
+    # the far coordinates, ~1e-11, is absorbed by the conversion to the closest small rational) and hands TLC the
+    # motion with t = 0: what is judged is the translation invariance of everything compute_geometry does, including
+    # the tolerances of the plane-fitting path (map_geometry.compute_normal) far from the origin.
+    P = _ROT24[rng.randrange(24)]
+    far = [rng.choice([-1, 1]) * m for m in (8192, 4096, 2048)]
+    out.append(dict(M=[[int(x) for x in row] for row in P], q=1, t=[0, 0, 0], far=far))
     return out
 
 
@@ -50,13 +59,19 @@ def geometry_of(recipe, motion=None):
     if motion is not None:
         M = np.asarray(motion["M"], dtype=float)
         g.nodes = (M @ g.nodes) / motion["q"] + np.asarray(motion["t"], dtype=float).reshape((3, 1))
+    far = np.asarray((motion or {}).get("far") or [0, 0, 0], dtype=float).reshape((3, 1))
+    g.nodes = g.nodes + far
     with warnings.catch_warnings():
         warnings.simplefilter("ignore")
         try:
             g.compute_geometry()
         except (ValueError, AssertionError, RuntimeError, FloatingPointError, ZeroDivisionError) as e:
             return g, info, None, dict(error=repr(e))
-    return g, info, G.geometry(g), G.geometry_floats(g)
+    h = g
+    if np.any(far):
+        h = SimpleNamespace(cell_volumes=g.cell_volumes, cell_centers=g.cell_centers - far, face_centers=g.face_centers - far,
+                            face_normals=g.face_normals, face_areas=g.face_areas)
+    return g, info, G.geometry(h), G.geometry_floats(h)
 
 
 def make_cases(recipe, mots):
@@ -126,7 +141,8 @@ def run(ctx):
     ctx.rule = ("base grids: the tensor grids enumerated by TLC (GridFam) as tensor / simplex grids with their variants "
                 "(orientation conventions, inconsistent orientation, affine maps, lattice perturbations), 1D lines, "
                 "hand-built polygonal / polyhedral grids; each is moved by signed permutations, quaternion rotations "
-                "(|q|^2 in 9, 25, 49), products and integer translations.  One evaluation = one (grid, motion) pair whose "
+                "(|q|^2 in 9, 25, 49), products and integer translations, and once by a signed permutation with a translation "
+                "by (8192, 4096, 2048) (far from the origin).  One evaluation = one (grid, motion) pair whose "
                 "two geometries TLC compared; classes = (family, #cells, operations, |q|^2); non-trivial = not the identity rotation")
     ctx.assumptions = ["integer base coordinates, rational rotations: every compared value is an exact rational"]
     q = ctx.quick
